@@ -181,7 +181,7 @@ func (m *machine) queryCallback(qe *qevent) func(res.QueryRequest) {
 			qr.Model(b.V.Go())
 		case "collection":
 			qr.Collection(b.V.Go())
-		case "events":
+		case "events", "eventsnotfound", "eventspanic":
 			type eventer interface {
 				ChangeEvent(map[string]interface{})
 				AddEvent(interface{}, int)
@@ -194,6 +194,13 @@ func (m *machine) queryCallback(qe *qevent) func(res.QueryRequest) {
 			} else {
 				e.RemoveEvent(b.N)
 				e.AddEvent(res.Ref("svc.q.1"), b.N)
+			}
+			// events collected for this request, then an explicit answer instead: nothing of
+			// them may show up in the answer to this or to a later request
+			if b.Op == "eventsnotfound" {
+				qr.NotFound()
+			} else if b.Op == "eventspanic" {
+				panic("after events")
 			}
 		case "nothing":
 		case "error":
@@ -599,8 +606,10 @@ func checkResponse(rq *qrequest, data []byte, pre [][]byte) string {
 		}
 	case "errorplain":
 		return wantErr(res.CodeInternalError)
-	case "notfound", "twice", "panicafter":
+	case "notfound", "twice", "panicafter", "eventsnotfound":
 		return wantErr(res.CodeNotFound)
+	case "eventspanic":
+		return wantErr(res.CodeInternalError)
 	case "timeoutreply":
 		if len(pre) != 1 || string(pre[0]) != fmt.Sprintf(`timeout:"%d"`, b.N) {
 			return want(fmt.Sprintf("pre-response timeout:%d, got %q", b.N, pre))
@@ -626,7 +635,7 @@ var gateSets = [][]string{
 }
 
 func genBehav(t *rapid.T) QBehav {
-	b := QBehav{Op: rapid.SampledFrom([]string{"model", "collection", "events", "nothing", "error", "errorplain", "notfound", "invalidquery", "timeoutreply", "panic", "panicafter", "twice"}).Draw(t, "bop")}
+	b := QBehav{Op: rapid.SampledFrom([]string{"model", "collection", "events", "nothing", "error", "errorplain", "notfound", "invalidquery", "timeoutreply", "panic", "panicafter", "twice", "eventsnotfound", "eventspanic", "nothing", "events"}).Draw(t, "bop")}
 	switch b.Op {
 	case "model":
 		v := gen.Val{Kind: "json", JSON: rapid.SampledFrom([]string{`{"a":1}`, `{}`, `{"x":{"rid":"svc.q.1"},"s":"é\"\\"}`}).Draw(t, "model")}
@@ -640,7 +649,7 @@ func genBehav(t *rapid.T) QBehav {
 			v = gen.Val{Kind: "func"}
 		}
 		b.V = &v
-	case "events", "timeoutreply":
+	case "events", "timeoutreply", "eventsnotfound", "eventspanic":
 		b.N = rapid.IntRange(0, 5000).Draw(t, "n")
 	case "error", "errorplain", "invalidquery":
 		b.S = rapid.SampledFrom([]string{"", "msg", "é\"x"}).Draw(t, "s")
